@@ -288,6 +288,7 @@ func c12NdpCase(in c12NdpIn) *c12Fail {
 // ---------- resolution in progress (envx) ----------
 
 type c12Wait struct {
+	lateReplies int
 	scen        string // udp | udp2 | gw | tcp | udp6
 	c           *c12World
 	ch          *engine.Chooser
@@ -338,6 +339,14 @@ func (x *c12Wait) deliverReply(mac tcpip.LinkAddress) {
 		x.c.w.Inject(x.c.n, 1, 0x0806, ref.BuildARP(2, []byte(mac), []byte(x.nextHop), []byte(macS), []byte(addrA4)), mac, macS)
 	}
 	x.learned = mac
+	// a reply that arrives after the retry budget has run out and the failure has been
+	// reported comes too late for the waiting operation: it only fills the cache
+	if x.scen == "tcp" && x.tcpEP != nil {
+		if st := tcp.VerifDump(x.tcpEP); st.State == 6 && st.HardError == tcpip.ErrNoLinkAddress.String() {
+			x.lateReplies++
+			return
+		}
+	}
 	x.replies++
 }
 
